@@ -325,6 +325,7 @@ func seedfix4C08(c *Ctx) {
 
 func seedfix4C10(c *Ctx) {
 	u, r := c.U, c.R
+	utf8GateOnMethodOnly(c)
 	// R-VERSION-FLAG-ALWAYS-SET: SetProtocolVersion writes protocolVersionSet on every path
 	// (true exactly with a non-empty version), so clearing the version reopens the gate.
 	if fn := c.Fn("R-VERSION-FLAG-ALWAYS-SET", "(*Server).SetProtocolVersion"); fn != nil {
@@ -425,6 +426,7 @@ func seedfix4C23(c *Ctx) {
 
 func seedfix4C27(c *Ctx) {
 	u, r := c.U, c.R
+	deriveFromWholeKey(c)
 	// R-ALLOWLIST-VERBATIM: the return-origin allowlist holds the operator's entries as
 	// configured (an entry that names a port keeps it).
 	if fn := c.Fn("R-ALLOWLIST-VERBATIM", "(*HttpServer).SetOAuthPkce"); fn != nil {
